@@ -1,5 +1,5 @@
-// prelude/small_actors_assumed.rs — TRUSTED stubs for the unit small_actors (account, ethaccount, system, cron, reward, datacap methods).
-// Included INSIDE the unit's `verus!{}` after the extracted items (it names reward `State`).
+// prelude/small_actors_assumed.rs — TRUSTED stubs for the unit small_actors (account and ethaccount methods). Needs prelude/core.rs and prelude/rt.rs.
+// (Do not combine with prelude/address_protocol.rs: this file defines `Protocol` / `Address::protocol` itself, with the class as a spec function.)
 //  * fvm_shared Address::protocol(): the address class as a function of the address (`addr_protocol`); the model's `proto == 0` is the ID
 //    class (same convention as prelude/address_protocol.rs, which only states the ID case).
 //  * fvm_shared SignatureType / Signature (external crate types, fields as in fvm_shared 4.8.2 crypto/signature.rs).
